@@ -1,6 +1,6 @@
 SPECIFICATION Spec
 CONSTANTS
-  Universe = "mix"
+  Universe = "cov"
   Emit = FALSE
   SepMode = "min"
 CHECK_DEADLOCK FALSE
